@@ -226,6 +226,26 @@ def run_case(case):
                                'msg': '%s raised by another thread is not caught by `except` '
                                       'with its own exact specialisation' % raised_text})
         foreign_exc.__traceback__ = None
+    # ---- the rule follows the class hierarchy as it is *now*: a class registered as a
+    # virtual subclass of an abstract exception class after a first look is matched from then on
+    class Abstract(Exception, metaclass=abc.ABCMeta):
+        pass
+
+    class Late(Exception):
+        pass
+    late = Concurrent(Late())
+    handler = Concurrent[Abstract]
+    before = (isinstance(late, handler), issubclass(type(late), handler),
+              isinstance(late, Concurrent[Abstract, ...]))
+    Abstract.register(Late)
+    after = (isinstance(late, handler), issubclass(type(late), handler),
+             isinstance(late, Concurrent[Abstract, ...]))
+    stats['dynamic_hierarchy_checks'] = stats.get('dynamic_hierarchy_checks', 0) + 1
+    if before != (False, False, False) or after != (True, True, True):
+        violations.append({'mechanism': 'c17:isinstance',
+                           'msg': 'Concurrent(Late()) vs Concurrent[Abstract]: %s before and %s '
+                                  'after Abstract.register(Late), expected all False / all True'
+                                  % (before, after)})
     # ---- flattened keeps leaves and order ----
     flat = exc.flattened()
     want_leaves = []
